@@ -59,7 +59,7 @@ P = dict(
                 "~560^2 boundary grid (x 21 third arguments) + seeded random pairs; complex functions on a moderate-magnitude grid, a "
                 "special-value grid, an extreme-magnitude grid of finite parts whose squares/ratios overflow or underflow (incl. denormals, "
                 "mixed tiny/huge/zero parts), a trig-large grid (large cosh argument x parts at odd multiples of pi/2) and seeded random "
-                "(ordinary and extreme), cells with one part inf/NaN and the other finite beyond the cosh overflow threshold (keyed apart from the Annex-G findings), and every compound/binary complex operator with the same object or a reference to the object's own part as operand; an ASan+UBSan stratum (float-cast-overflow, shifts) over the boundary plans with a "
+                "(ordinary and extreme), cells with one part inf/NaN and the other finite beyond the cosh overflow threshold (keyed apart from the Annex-G findings), and every compound/binary complex operator with the same object or a reference to the object's own part as operand; pow(T,int) on 18 bases x 18 integer exponents up to INT_MIN/INT_MAX and the mixed-argument (additional) overloads of the two-argument functions, each at run time AND as a constant expression (C16_mixed); an ASan+UBSan stratum (float-cast-overflow, shifts) over the boundary plans with a "
                 "breadcrumb before every call. Exact set: bit-identical (both-NaN relaxation, sign-bit functions also on the NaN sign); "
                 "approximate set: NaN/inf/signed-zero class equal and ulp distance within the committed table harness/C16_bounds.json. "
                 "Held means no divergence beyond the listed open findings on the executions counted in the evidence; it is not a proof "
